@@ -1509,6 +1509,103 @@ func zzC17Names(sets ...[]string) (ns []zzC17Name) {
 	return ns
 }
 
+// ------------------------------------------------- operations on an instance
+
+// zzC17Op is one concrete operation on a running instance: either a request
+// to a registered handler, or a restart with the current list table plus one
+// location that nothing validated (as if the YAML file had been edited).
+// Histories are logged as sequences of these, so that a step can be executed
+// again together with everything that came before it on the same instance.
+type zzC17Op struct {
+	Body      map[string]any `json:"body,omitempty"`
+	Kind      string         `json:"kind"`
+	Path      string         `json:"path,omitempty"`
+	InjectURL string         `json:"inject_url,omitempty"`
+	White     bool           `json:"white,omitempty"`
+}
+
+// zzC17Inst is a server with its data directory; restarts keep the directory.
+type zzC17Inst struct {
+	srv     *zzC17Srv
+	client  *http.Client
+	dataDir string
+	pats    []string
+}
+
+func zzC17NewInst(dataDir string, pats []string, client *http.Client) (in *zzC17Inst, err error) {
+	in = &zzC17Inst{dataDir: dataDir, pats: pats, client: client}
+	in.srv, err = zzC17NewSrv(dataDir, pats, nil, nil, client)
+	if err != nil {
+		return nil, err
+	}
+
+	in.srv.start()
+
+	return in, nil
+}
+
+func (in *zzC17Inst) exec(op zzC17Op) (status int, err error) {
+	switch op.Kind {
+	case "call":
+		status, _ = in.srv.call(http.MethodPost, op.Path, op.Body)
+
+		return status, nil
+	case "restart":
+		var block, allow []FilterYAML
+		dup := false
+		for _, x := range in.srv.lists() {
+			dup = dup || x.URL == op.InjectURL
+			y := FilterYAML{Enabled: x.Enabled, URL: x.URL, Name: "l", Filter: Filter{ID: int(x.ID)}}
+			if x.White {
+				allow = append(allow, y)
+			} else {
+				block = append(block, y)
+			}
+		}
+
+		if !dup {
+			inj := FilterYAML{Enabled: true, URL: op.InjectURL, Name: "injected"}
+			if op.White {
+				allow = append(allow, inj)
+			} else {
+				block = append(block, inj)
+			}
+		}
+
+		in.srv.close()
+		in.srv, err = zzC17NewSrv(in.dataDir, in.pats, block, allow, in.client)
+		if err != nil {
+			return 0, err
+		}
+
+		in.srv.start()
+
+		return 0, nil
+	default:
+		return 0, fmt.Errorf("bad op kind %q", op.Kind)
+	}
+}
+
+func zzC17Call(path string, body map[string]any) (op zzC17Op) {
+	return zzC17Op{Kind: "call", Path: "/control/filtering/" + path, Body: body}
+}
+
+// zzC17Delta returns the sentinel numbers stored now that were not in prev.
+func zzC17Delta(s *zzC17Srv, prev map[int]bool) (fresh []int, now map[int]bool) {
+	now = map[int]bool{}
+	fresh = []int{}
+	for _, k := range s.leaks() {
+		now[k] = true
+		if !prev[k] {
+			fresh = append(fresh, k)
+		}
+	}
+
+	return fresh, now
+}
+
+// ---------------------------------------------------------------- direction B
+
 // TestZZVerifC17Trace is direction B.
 func TestZZVerifC17Trace(t *testing.T) {
 	zzC17Quiet()
@@ -1569,12 +1666,10 @@ func TestZZVerifC17Trace(t *testing.T) {
 
 		dataDir := filepath.Join(work, "tb", "d"+strconv.Itoa(ep))
 		_ = os.MkdirAll(dataDir, 0o755)
-		srv, serr := zzC17NewSrv(dataDir, pats, nil, nil, h.client)
+		inst, serr := zzC17NewInst(dataDir, pats, h.client)
 		if serr != nil {
 			t.Fatalf("epoch %d: patterns %q: %v", ep, pats, serr)
 		}
-
-		srv.start()
 
 		nameSets := [][]string{rootSegs, baseLoc.Segs}
 		for _, p := range nodes {
@@ -1622,14 +1717,12 @@ func TestZZVerifC17Trace(t *testing.T) {
 			_, _ = world.w.drain()
 			rec := map[string]any{"act": st.act}
 			url := ""
-			status := 0
-			ls := srv.lists()
+			ls := inst.srv.lists()
+			var op zzC17Op
 			switch st.act {
 			case "add":
 				url = world.renderLoc(st.loc, nil)
-				byURL[url] = st.loc
-				status, _ = srv.call(http.MethodPost, "/control/filtering/add_url",
-					map[string]any{"name": "l", "url": url, "whitelist": rng.Intn(3) == 0})
+				op = zzC17Call("add_url", map[string]any{"name": "l", "url": url, "whitelist": rng.Intn(3) == 0})
 			case "seturl":
 				if len(ls) == 0 {
 					continue
@@ -1637,14 +1730,12 @@ func TestZZVerifC17Trace(t *testing.T) {
 
 				old := ls[rng.Intn(len(ls))]
 				url = world.renderLoc(st.loc, nil)
-				byURL[url] = st.loc
-				status, _ = srv.call(http.MethodPost, "/control/filtering/set_url", map[string]any{
+				op = zzC17Call("set_url", map[string]any{
 					"url": old.URL, "whitelist": old.White,
 					"data": map[string]any{"name": "l", "url": url, "enabled": rng.Intn(6) != 0},
 				})
 			case "refresh":
-				status, _ = srv.call(http.MethodPost, "/control/filtering/refresh",
-					map[string]any{"whitelist": rng.Intn(2) == 0})
+				op = zzC17Call("refresh", map[string]any{"whitelist": rng.Intn(2) == 0})
 			case "remove":
 				if len(ls) == 0 {
 					continue
@@ -1653,40 +1744,20 @@ func TestZZVerifC17Trace(t *testing.T) {
 				old := ls[rng.Intn(len(ls))]
 				url = old.URL
 				st.loc = byURL[url]
-				status, _ = srv.call(http.MethodPost, "/control/filtering/remove_url",
-					map[string]any{"url": url, "whitelist": old.White})
+				op = zzC17Call("remove_url", map[string]any{"url": url, "whitelist": old.White})
 			case "inject":
 				// Restart with the current lists plus one unvalidated location.
 				url = world.renderLoc(st.loc, nil)
+				op = zzC17Op{Kind: "restart", InjectURL: url, White: rng.Intn(2) == 0}
+			}
+
+			if st.act != "refresh" && st.act != "remove" {
 				byURL[url] = st.loc
-				var block, allow []FilterYAML
-				dup := false
-				for _, x := range ls {
-					dup = dup || x.URL == url
-					y := FilterYAML{Enabled: x.Enabled, URL: x.URL, Name: "l", Filter: Filter{ID: int(x.ID)}}
-					if x.White {
-						allow = append(allow, y)
-					} else {
-						block = append(block, y)
-					}
-				}
+			}
 
-				if !dup {
-					inj := FilterYAML{Enabled: true, URL: url, Name: "injected"}
-					if rng.Intn(2) == 0 {
-						allow = append(allow, inj)
-					} else {
-						block = append(block, inj)
-					}
-				}
-
-				srv.close()
-				srv, serr = zzC17NewSrv(dataDir, pats, block, allow, h.client)
-				if serr != nil {
-					t.Fatalf("epoch %d: restart: %v", ep, serr)
-				}
-
-				srv.start()
+			status, xerr := inst.exec(op)
+			if xerr != nil {
+				t.Fatalf("epoch %d: %s: %v", ep, st.act, xerr)
 			}
 
 			real, ovf := world.w.drain()
@@ -1701,7 +1772,7 @@ func TestZZVerifC17Trace(t *testing.T) {
 
 			lists := []zzC17Loc{}
 			listURLs := []string{}
-			for _, x := range srv.lists() {
+			for _, x := range inst.srv.lists() {
 				listURLs = append(listURLs, x.URL)
 				if lc, ok := byURL[x.URL]; ok {
 					lists = append(lists, lc)
@@ -1715,121 +1786,355 @@ func TestZZVerifC17Trace(t *testing.T) {
 				rec["loc"] = zzC17Loc{Scheme: "none", Segs: []string{}}
 			}
 
-			rec["opened"] = opened
 			// Only what this step added to the stored lists is attributed to it.
-			fresh := []int{}
-			now := map[int]bool{}
-			for _, k := range srv.leaks() {
-				now[k] = true
-				if !prevLeaks[k] {
-					fresh = append(fresh, k)
-				}
-			}
-
-			prevLeaks = now
+			var fresh []int
+			fresh, prevLeaks = zzC17Delta(inst.srv, prevLeaks)
+			rec["opened"] = opened
 			rec["stored"] = world.marksToPaths(fresh)
 			rec["lists"] = lists
 			rec["status"] = status
-			rec["concrete"] = map[string]any{"url": url, "root": root, "cwd": "/" + zzC17Key(cwd), "patterns": pats,
-				"list_urls": listURLs}
+			rec["concrete"] = map[string]any{"url": url, "op": op, "list_urls": listURLs}
 			out.put(rec)
 		}
 
-		srv.close()
+		inst.srv.close()
 		world.w.close()
-		if zzGetenv("VERIF_C17_KEEPTREES") == "" {
-			_ = os.RemoveAll(dataDir)
-		}
+		_ = os.RemoveAll(dataDir)
 	}
 }
 
-// TestZZVerifC17Redo re-executes one trace step in isolation on the tree the
-// trace left behind: VERIF_C17_REDO = {"root","cwd","patterns","act","url"}.
-// It prints the real paths opened.
+// TestZZVerifC17Redo executes a logged history again on a fresh instance:
+// VERIF_C17_REDO names a JSON file {"root","cwd","patterns","dirs","files",
+// "ops":[op..]}.  The tree is rebuilt if it is gone.  It reports what the LAST
+// operation opened and stored, everything before it being the instance's
+// history.
 func TestZZVerifC17Redo(t *testing.T) {
 	zzC17Quiet()
 	out := zzNewWriter(t, "VERIF_OUT")
 	defer out.close()
 
 	req := struct {
-		Root     string   `json:"root"`
-		Cwd      string   `json:"cwd"`
-		Act      string   `json:"act"`
-		URL      string   `json:"url"`
-		Patterns []string `json:"patterns"`
-		Dirs     []string `json:"dirs"`
-		Files    []string `json:"files"`
+		Root     string    `json:"root"`
+		Cwd      string    `json:"cwd"`
+		Patterns []string  `json:"patterns"`
+		Dirs     []string  `json:"dirs"`
+		Files    []string  `json:"files"`
+		Ops      []zzC17Op `json:"ops"`
 	}{}
-	if err := json.Unmarshal([]byte(zzGetenv("VERIF_C17_REDO")), &req); err != nil {
+	b, err := os.ReadFile(zzGetenv("VERIF_C17_REDO"))
+	if err != nil {
 		t.Skip("no VERIF_C17_REDO")
 	}
 
-	if _, serr := os.Stat(req.Root); serr != nil {
-		// Replaying a stored record: the tree is gone, build it again.
-		world, werr := zzC17BuildWorld(req.Root, req.Dirs, req.Files, false)
-		if werr != nil {
-			t.Fatalf("rebuilding tree: %v", werr)
-		}
-
-		world.w.close()
+	if err = json.Unmarshal(b, &req); err != nil || len(req.Ops) == 0 {
+		t.Fatalf("bad redo request: %v", err)
 	}
 
-	dirs := []string{}
-	_ = filepath.WalkDir(req.Root, func(p string, d os.DirEntry, err error) error {
-		if err == nil && d.IsDir() {
-			dirs = append(dirs, p)
-		}
+	// Always build on a clean slate: same layout, same sentinel numbers.
+	_ = os.RemoveAll(req.Root)
+	world, err := zzC17BuildWorld(req.Root, req.Dirs, req.Files, false)
+	if err != nil {
+		t.Fatalf("rebuilding tree: %v", err)
+	}
+	defer world.w.close()
 
-		return nil
-	})
-
-	if err := os.Chdir(req.Cwd); err != nil {
+	if err = os.Chdir(req.Cwd); err != nil {
 		t.Fatalf("chdir: %v", err)
 	}
-
-	watch, err := zzC17NewWatch(dirs)
-	if err != nil {
-		t.Fatal(err)
-	}
-	defer watch.close()
 
 	h := zzC17NewHTTP()
 	defer h.srv.Close()
 
-	dataDir := t.TempDir()
-	var block []FilterYAML
-	if req.Act == "inject" || req.Act == "refresh" {
-		block = []FilterYAML{{Enabled: true, URL: req.URL, Name: "injected", Filter: Filter{ID: 7}}}
-	}
-
-	srv, err := zzC17NewSrv(dataDir, req.Patterns, block, nil, h.client)
+	inst, err := zzC17NewInst(t.TempDir(), req.Patterns, h.client)
 	if err != nil {
 		t.Fatal(err)
 	}
-	defer srv.close()
+	defer func() { inst.srv.close() }()
 
-	srv.start()
+	prev := map[int]bool{}
 	status := 0
-	switch req.Act {
-	case "add":
-		status, _ = srv.call(http.MethodPost, "/control/filtering/add_url",
-			map[string]any{"name": "l", "url": req.URL, "whitelist": false})
-	case "seturl":
-		srv.call(http.MethodPost, "/control/filtering/add_url",
-			map[string]any{"name": "base", "url": zzC17BaseURL, "whitelist": false})
-		_, _ = watch.drain()
-		status, _ = srv.call(http.MethodPost, "/control/filtering/set_url", map[string]any{
-			"url": zzC17BaseURL, "whitelist": false,
-			"data": map[string]any{"name": "l", "url": req.URL, "enabled": true},
-		})
-	default:
-		status, _ = srv.call(http.MethodPost, "/control/filtering/refresh", map[string]any{"whitelist": false})
+	for i, op := range req.Ops {
+		if i == len(req.Ops)-1 {
+			_, _ = world.w.drain()
+			_, prev = zzC17Delta(inst.srv, map[int]bool{})
+		}
+
+		status, err = inst.exec(op)
+		if err != nil {
+			t.Fatalf("op %d: %v", i, err)
+		}
 	}
 
-	real, _ := watch.drain()
+	real, _ := world.w.drain()
 	if real == nil {
 		real = []string{}
 	}
 
-	out.put(map[string]any{"kind": "redo", "status": status, "opened": real})
+	fresh, _ := zzC17Delta(inst.srv, prev)
+	stored := []string{}
+	for _, k := range fresh {
+		stored = append(stored, world.marks[k])
+	}
+
+	out.put(map[string]any{"kind": "redo", "status": status, "opened": real, "stored": stored, "ops": len(req.Ops)})
+}
+
+// ------------------------------------------------- direction A, second half:
+// walks over the edges of the state machine on one live instance each
+
+type zzC17Step struct {
+	Act string     `json:"act"`
+	Loc zzC17Loc   `json:"loc"`
+	May [][]string `json:"may"`
+}
+
+type zzC17WalkIn struct {
+	T     string      `json:"t"`
+	Cfg   []int       `json:"cfg"`
+	Steps []zzC17Step `json:"steps"`
+	Var   int64       `json:"var"`
+	Idx   int         `json:"idx"`
+}
+
+type zzC17StepObs struct {
+	Act     string     `json:"act"`
+	URL     string     `json:"url"`
+	Ops     []zzC17Op  `json:"ops"`
+	Opened  [][]string `json:"opened"`
+	Stored  [][]string `json:"stored"`
+	Status  int        `json:"status"`
+	Verdict string     `json:"verdict,omitempty"`
+	What    string     `json:"what,omitempty"`
+}
+
+// runWalk executes the first upto steps of a walk on a fresh instance and
+// judges every step against the edge's bound.  It stops at the first step
+// that is not fine and returns its index (-1 if all were).
+func (e *zzC17Env) runWalk(wk *zzC17WalkIn, upto int) (obs []zzC17StepObs, at int, kind string, err error) {
+	w := e.world
+	rng := rand.New(rand.NewSource(wk.Var))
+	dd := e.newDataDir()
+	defer func() { _ = os.RemoveAll(dd) }()
+
+	inst, err := zzC17NewInst(dd, e.patterns(wk.Cfg, rng), e.http.client)
+	if err != nil {
+		return nil, -1, "", err
+	}
+	defer func() { inst.srv.close() }()
+
+	var matching map[string]bool
+	for _, m := range e.tables.Matching {
+		if zzC17CfgKey(m.Cfg) == zzC17CfgKey(wk.Cfg) {
+			matching = zzC17KeySet(m.Nodes)
+		}
+	}
+
+	urlOf := map[string]string{}
+	render := func(l zzC17Loc) (u string) {
+		b, _ := json.Marshal(l)
+		u, ok := urlOf[string(b)]
+		if !ok {
+			u = w.renderLoc(l, rng)
+			urlOf[string(b)] = u
+		}
+
+		return u
+	}
+
+	base := zzC17Call("add_url", map[string]any{"name": "base", "url": zzC17BaseURL, "whitelist": false})
+	prev := map[int]bool{}
+	for i := 0; i < upto && i < len(wk.Steps); i++ {
+		st := wk.Steps[i]
+		o := zzC17StepObs{Act: st.Act, Opened: [][]string{}}
+		ops := []zzC17Op{}
+		switch st.Act {
+		case "add":
+			o.URL = render(st.Loc)
+			ops = append(ops, zzC17Call("add_url", map[string]any{"name": "l", "url": o.URL, "whitelist": rng.Intn(3) == 0}))
+		case "seturl":
+			// Editing needs a list to edit; the spec's table may be ahead of
+			// the real one (it does not decide acceptance), so a list with an
+			// http URL, which names no local file, is added when there is none.
+			ls := inst.srv.lists()
+			if len(ls) == 0 {
+				if _, err = inst.exec(base); err != nil {
+					return obs, i, "", err
+				}
+
+				ls = inst.srv.lists()
+			}
+
+			if len(ls) == 0 {
+				return obs, i, "", fmt.Errorf("no list to edit")
+			}
+
+			old := ls[rng.Intn(len(ls))]
+			o.URL = render(st.Loc)
+			enabled := rng.Intn(6) != 0
+			ops = append(ops, zzC17Call("set_url", map[string]any{
+				"url": old.URL, "whitelist": old.White,
+				"data": map[string]any{"name": "l", "url": o.URL, "enabled": enabled},
+			}))
+			if !enabled {
+				ops = append(ops, zzC17Call("set_url", map[string]any{
+					"url": o.URL, "whitelist": old.White,
+					"data": map[string]any{"name": "l", "url": o.URL, "enabled": true},
+				}))
+			}
+		case "inject":
+			o.URL = render(st.Loc)
+			ops = append(ops, zzC17Op{Kind: "restart", InjectURL: o.URL, White: rng.Intn(2) == 0})
+		case "refresh":
+			ops = append(ops, zzC17Call("refresh", map[string]any{"whitelist": false}),
+				zzC17Call("refresh", map[string]any{"whitelist": true}))
+		case "remove":
+			o.URL = render(st.Loc)
+			white := false
+			for _, x := range inst.srv.lists() {
+				if x.URL == o.URL {
+					white = x.White
+				}
+			}
+
+			ops = append(ops, zzC17Call("remove_url", map[string]any{"url": o.URL, "whitelist": white}))
+		default:
+			return obs, i, "", fmt.Errorf("bad act %q", st.Act)
+		}
+
+		_, _ = w.w.drain()
+		for _, op := range ops {
+			o.Status, err = inst.exec(op)
+			if err != nil {
+				return obs, i, "", err
+			}
+		}
+
+		o.Ops = ops
+		real, ovf := w.w.drain()
+		for _, p := range real {
+			o.Opened = append(o.Opened, w.abstract(p))
+		}
+
+		var fresh []int
+		fresh, prev = zzC17Delta(inst.srv, prev)
+		o.Stored = w.marksToPaths(fresh)
+
+		bound := zzC17KeySet(st.May)
+		if ovf {
+			o.Verdict, o.What = "instrument", "inotify queue overflow"
+		} else if o.Status == -1 {
+			o.Verdict, o.What = "panic", "handler panicked"
+		}
+
+		for name, set := range map[string][][]string{"opened": o.Opened, "stored": o.Stored} {
+			for _, p := range set {
+				k := zzC17Key(p)
+				if bound[k] || o.Verdict == "bad" {
+					continue
+				}
+
+				if matching == nil || !matching[k] {
+					o.Verdict = "bad"
+					o.What = fmt.Sprintf("step %d (%s %s): %s %s, outside the safe patterns", i, st.Act, o.URL, name, k)
+				} else {
+					o.Verdict = "mismatch"
+					o.What = fmt.Sprintf("step %d (%s %s): %s %s, which matches but is not in the spec's set", i, st.Act, o.URL, name, k)
+				}
+			}
+		}
+
+		obs = append(obs, o)
+		if o.Verdict != "" {
+			return obs, i, o.Verdict, nil
+		}
+	}
+
+	return obs, -1, "", nil
+}
+
+// TestZZVerifC17Walk walks the edges of SafePath.tla's state graph (as
+// printed by SafePath.walk.cfg and arranged into walks by the orchestrator),
+// one live instance per walk, comparing after every step.  A step that is
+// not fine is reproduced by running the walk's prefix again on another fresh
+// instance.
+func TestZZVerifC17Walk(t *testing.T) {
+	if k, _ := strconv.Atoi(zzGetenv("VERIF_C17_SHARDS")); k > 0 {
+		zzC17Shards(t, "TestZZVerifC17Walk", k)
+
+		return
+	}
+
+	zzC17Quiet()
+	out := zzNewWriter(t, "VERIF_OUT")
+	defer out.close()
+
+	var e *zzC17Env
+	walks, steps, bad, positive, accepted := 0, 0, 0, 0, 0
+	perAct := map[string]int{}
+	zzReadNDJSON(t, "VERIF_IN", func(line []byte) {
+		wk := &zzC17WalkIn{}
+		if err := json.Unmarshal(line, wk); err != nil {
+			t.Fatalf("bad walk: %v", err)
+		}
+
+		if wk.T == "tables" {
+			tb := &zzC17Tables{}
+			if err := json.Unmarshal(line, tb); err != nil {
+				t.Fatalf("bad tables: %v", err)
+			}
+
+			e = zzC17Setup(t, tb)
+
+			return
+		}
+
+		walks++
+		obs, at, kind, err := e.runWalk(wk, len(wk.Steps))
+		if err != nil {
+			out.put(map[string]any{"kind": "skip", "idx": wk.Idx, "err": err.Error(), "at": at})
+
+			return
+		}
+
+		steps += len(obs)
+		for _, o := range obs {
+			perAct[o.Act]++
+			if len(o.Opened) > 0 && o.Verdict == "" {
+				positive++
+			}
+
+			if o.Status == http.StatusOK && (o.Act == "add" || o.Act == "seturl") {
+				accepted++
+			}
+		}
+
+		if kind == "" {
+			return
+		}
+
+		obs2, at2, kind2, err2 := e.runWalk(wk, at+1)
+		if err2 != nil || kind2 != kind || at2 != at {
+			out.put(map[string]any{"kind": "flaky", "first": kind, "second": kind2, "idx": wk.Idx, "at": at,
+				"what": obs[len(obs)-1].What})
+
+			return
+		}
+
+		if kind == "bad" {
+			bad++
+		}
+
+		prefix := *wk
+		prefix.Steps = wk.Steps[:at+1]
+		out.put(map[string]any{"kind": kind, "what": obs2[len(obs2)-1].What, "idx": wk.Idx, "at": at,
+			"walk": prefix, "obs": obs2, "patterns": e.patterns(wk.Cfg, nil)})
+	})
+
+	if e != nil {
+		e.http.srv.Close()
+		e.world.w.close()
+	}
+
+	out.put(map[string]any{"kind": "summary", "walks": walks, "steps": steps, "bad": bad, "positive": positive,
+		"accepted": accepted, "per_act": perAct})
 }
